@@ -232,6 +232,9 @@ def exception_origin(exc):
     from the simulated disk, a TypeError for bytes written to a text file, a probe object that
     refuses to be formatted) and the standard library; the first frame that lies in the lena
     under test means 'lena', one in the property modules or the kernel means 'harness'."""
+    if isinstance(exc, HarnessError):
+        # the simulation does not model what the code asked for: never a verdict about lena
+        return "harness"
     files = _frames_of(exc.__traceback__)
     for fn in reversed(files):
         fn = os.path.abspath(fn)
